@@ -6,21 +6,27 @@ import PlumVerif.Spec.C09
                (data, program-version request, check-device request, other request) or `s` for a
                received frame that never reaches the read queue (ignored / protocol error).
                Frame ids are positions in the whole sequence (skipped ones included).
-  c09 <contain 0|1> <n> <cfg> <frame>… | <frame>… | …      batches separated by "|"
+  c09 <contain 0|1> <n> <net> <ver> <frame>… | <frame>… | …      batches separated by "|"
+      net = the configured network information as the payload (hex) of a device-available response
+            (decoded here with the network structure's DECODER; undecodable -> bad-op)
+      ver = a.b.c.<struct tag hex>.<struct version>.<device id hex>.<processor signature hex>
+            (the code's `VersionInfo()` defaults, read from the implementation by the harness)
       -> one snapshot per batch, separated by " ; ":  delivered responses unfinished alive
+         (responses: - | kind.rcpt.sender.etype.ever.payloadhex,…)
          (delivered: - | id,id;  responses: - | code.rcpt.net,…); a batch starting with the word H
          arrives while no consumer can finish (device entry being created): nothing is handled yet
-  c09judge <n> <cfg> <frame>… | <delivered> <responses> <unfinished> <alive> <shutdown 0|1>
+  c09judge <n> <net> <frame>… | <delivered> <responses> <unfinished> <alive> <shutdown 0|1>
       -> pass | fail:<first failing clause of C09.spec>
 -/
 namespace PlumVerif.Pool
 
 def showL (xs : List String) : String := if xs.isEmpty then "-" else String.intercalate "," xs
 
-def Resp.show (r : Resp) : String := s!"{r.kind.code}.{r.rcpt}.{r.net}"
+def showReply (f : Fields) : String :=
+  s!"{f.kind.toNat}.{f.rcpt.toNat}.{f.sender.toNat}.{f.etype.toNat}.{f.ever.toNat}.{showHex f.payload}"
 
 def Snap.show (o : Snap) : String :=
-  s!"{showL (o.delivered.map toString)} {showL (o.responses.map Resp.show)} {o.unfinished} {o.alive}"
+  s!"{showL (o.delivered.map toString)} {showL (o.responses.map showReply)} {o.unfinished} {o.alive}"
 
 def parseBit (w : String) : Option Bool :=
   if w = "1" then some true else if w = "0" then some false else none
@@ -34,7 +40,7 @@ def parseFrame (id : Nat) (w : String) : Option (Option Frame) :=
       | "d" => some Cls.data | "p" => some Cls.pvReq | "c" => some Cls.cdReq | "o" => some Cls.otherReq
       | _ => none
     let sd ← sd.toNat?; let ctl ← parseBit ctl; let items ← items.toNat?; let r ← parseBit r
-    pure (some ⟨id, cls, sd, ctl, items, r⟩)
+    if sd < 256 then pure (some ⟨id, cls, sd.toUInt8, ctl, items, r⟩) else none
   | _ => none
 
 def splitBar (ws : List String) : List (List String) :=
@@ -58,40 +64,55 @@ def parseBatchesH : Nat → List (List String) → Option (List (Bool × List Fr
 def parseBatches (start : Nat) (bs : List (List String)) : Option (List (List Frame)) :=
   (parseBatchesH start bs).map fun l => l.map (·.2)
 
-def parseResp (w : String) : Option Resp :=
+def parseByte (w : String) : Option Byte := do
+  let n ← w.toNat?
+  if n < 256 then some n.toUInt8 else none
+
+def parseReply (w : String) : Option Fields :=
   match w.splitOn "." with
-  | [k, r, n] => do
-    let k ← k.toNat?; let r ← r.toNat?; let n ← n.toNat?
-    let kind ← if k = RKind.programVersion.code then some RKind.programVersion
-               else if k = RKind.deviceAvailable.code then some RKind.deviceAvailable else none
-    pure ⟨kind, r, n⟩
+  | [k, r, sd, et, ev, p] => do
+    let k ← parseByte k; let r ← parseByte r; let sd ← parseByte sd; let et ← parseByte et; let ev ← parseByte ev
+    let p ← parseHex p
+    pure ⟨k, r, sd, et, ev, p⟩
+  | _ => none
+
+def parseVer (w : String) : Option VersionInfo :=
+  match w.splitOn "." with
+  | [a, b, c, tag, sv, dev, sig] => do
+    let a ← a.toNat?; let b ← b.toNat?; let c ← c.toNat?; let sv ← sv.toNat?
+    let tag ← parseHex tag; let dev ← parseHex dev; let sig ← parseHex sig
+    pure ⟨a, b, c, tag, sv, dev, sig⟩
   | _ => none
 
 def parseL (w : String) (f : String → Option α) : Option (List α) :=
   if w = "-" then some [] else (w.splitOn ",").mapM f
 
-def judge (n cfg : Nat) (frames : List Frame) (o : C09.Obs) : String :=
+def judge (n : Nat) (net : NetInfo) (frames : List Frame) (o : C09.Obs) : String :=
   if !C09.deliveredOnce frames o then "fail:a-decodable-frame-was-not-delivered-exactly-once"
   else if !C09.onlyValid frames o then "fail:something-else-was-delivered"
-  else if !C09.answered cfg frames o then "fail:controller-requests-not-answered-one-to-one"
+  else if !C09.answered net frames o then "fail:controller-requests-not-answered-one-to-one"
   else if !C09.balanced n o then "fail:accounting-unbalanced-or-consumer-lost-or-shutdown-stuck"
-  else if C09.spec n cfg frames o then "pass" else "fail:spec"
+  else if C09.spec n net frames o then "pass" else "fail:spec"
 
 def poolOps : List String → Option String
-  | "c09" :: contain :: n :: cfg :: rest => do
+  | "c09" :: contain :: n :: net :: ver :: rest => do
     let contain ← parseBit contain
-    let n ← n.toNat?; let cfg ← cfg.toNat?
+    let n ← n.toNat?
+    let net ← Net.decode (← parseHex net)
+    let ver ← parseVer ver
+    let cfg : Cfg := ⟨net, ver⟩
     let batches ← parseBatchesH 0 (splitBar rest)
     pure (String.intercalate " ; " ((replayH contain cfg n batches).map Snap.show))
-  | "c09judge" :: n :: cfg :: rest => do
-    let n ← n.toNat?; let cfg ← cfg.toNat?
+  | "c09judge" :: n :: net :: rest => do
+    let n ← n.toNat?
+    let net ← Net.decode (← parseHex net)
     match splitBar rest with
     | [fws, [d, r, u, a, sh]] =>
       let frames ← parseBatches 0 [fws]
       let d ← parseL d String.toNat?
-      let r ← parseL r parseResp
+      let r ← parseL r parseReply
       let u ← u.toNat?; let a ← a.toNat?; let sh ← parseBit sh
-      pure (judge n cfg frames.flatten ⟨d, r, u, a, sh⟩)
+      pure (judge n net frames.flatten ⟨d, r, u, a, sh⟩)
     | _ => none
   | _ => none
 
